@@ -53,7 +53,7 @@ CLASSES = {
 CLASS_NAMES = list(CLASSES)
 
 EXTRAS = ["named_ineq", "user_eq", "lmi_sym", "lmi_nonsym", "lmi_two", "lmi_unsent", "partition1", "partition2",
-          "fn_constraint", "fn_lmi", "fn_lmi_two", "noise", "unused_lmi_class", "const_metric", "two_metrics", "second_function", "dup_eval"]
+          "fn_constraint", "fn_lmi", "fn_lmi_two", "noise", "unused_lmi_class", "same_constraint_twice", "const_metric", "two_metrics", "second_function", "dup_eval"]
 
 
 class Ctx(object):
@@ -217,6 +217,8 @@ def build(spec):
         p.set_initial_condition(d0 == 1)
     elif init == "dist2":
         p.set_initial_condition(d0 <= 4)
+    elif init == "dist1e6":
+        p.set_initial_condition(d0 <= 1e6)      # badly scaled on purpose: constant of order 1e6
     elif init == "dist100":
         p.set_initial_condition(d0 <= 100)      # a model that is not normalised: optimum of order 100
     elif init == "fval" and has_values and ref is not None:
@@ -314,6 +316,12 @@ def build(spec):
             # a class with a class LMI that is declared and never evaluated
             from PEPit.operators import SymmetricLinearOperator
             c.funcs["unused"] = p.declare_function(SymmetricLinearOperator, mu=0.0, L=1.0)
+        elif ex == "same_constraint_twice":
+            # one Constraint object declared at two places (on the problem and on the function)
+            con = (dn <= 2 * d0 + 0.25)
+            p.add_constraint(con)
+            f.add_constraint(con)
+            c.constraints["twice"] = con
         elif ex == "const_metric":
             p.set_performance_metric(m + 0.5)
         elif ex == "two_metrics":
@@ -402,6 +410,8 @@ def enumerate_specs(tier, family="core"):
                     continue          # both define exprs['e_lmi'] / exprs['e_fn']
                 specs.append(dict(base, extras=[e1, e2]))
             specs.append(dict(base, named=True, fname="func", extras=["named_ineq"]))
+    for cls in ("SmoothStronglyConvexFunction", "ConvexFunction", "LipschitzOperator", "SmoothConvexFunction"):
+        specs.append(dict(cls=cls, par=0, pattern="sf", metric=CLASSES[cls]["metrics"][0], init="dist1e6", n=1))
     for par in range(1 if quick else 2):
         specs.append(dict(cls="LinearOperator", par=par, pattern="sf", step="lin_A", metric="grad", init="dist", n=1))
     # composites and alternative steps
